@@ -1528,3 +1528,17 @@ Lemma P_clean_nonvacuous :
   map (fun r => snd (fst (fst (fst r)))) (model_rows (clean_model m_clean)) = [3; 5; 6; 7] /\
   m_units (clean_model m_clean) = [21].
 Proof. repeat split; reflexivity. Qed.
+
+(** the ownership hypothesis of [link_true_post] is needed: a units object listed by the model whose parent is
+    another model (reachable through Model::replaceUnits, which does not detach the new units from its previous
+    model) makes linkUnits answer true and hasUnlinkedUnits answer true *)
+Definition m_stolen : model :=
+  mkM 0 [mkU 10 "ua" "" 1 false (Some 1); mkU 11 "ua" "" 0 false None] [10]
+      [Comp 2 (ci0 "c") [mkV 4 "" [] (Some 11)] []] [].
+
+Lemma link_needs_ownership :
+  ~ units_owned m_stolen /\ snd (link_model m_stolen) = true /\ has_unlinked (fst (link_model m_stolen)) = true.
+Proof.
+  split; [|split; reflexivity]. intros H. destruct (H 10 (or_introl eq_refl)) as [u [Hu Ho]].
+  cbn in Hu. injection Hu as <-. discriminate Ho.
+Qed.
